@@ -1,5 +1,6 @@
 """C01 — secure integer operations are exact in every party configuration."""
 import random
+import math
 import itertools
 
 PROPERTY = 'C01'
@@ -113,6 +114,47 @@ def run(shard, rec):
                     rec.violation(f'm=1 secint{l}: {op}{av}{" const " + str(c) if c is not None else ""} = {got}, Python gives {e}',
                                   {'mechanism': 'wrong-output', 'op': op, 'divisor_negative': False}, {'case': case}, case=case)
             rec.case(case, nontrivial=op not in ('add', 'sub', 'neg', 'addc', 'rsubc'))
+        # reductions over lists that are long relative to the bit length (the operands are ordinary l-bit values; whatever the reduction computes
+        # internally must not wrap): all/any over 0/1 lists with every interesting number of zeros/ones, sum/prod/min/max with results that fit
+        if l <= 6:
+            P = 1 << l
+            lens = sorted({1, 2, 3, 2 * l, 2 * l + 1, P - 1, P, P + 1, 2 * P, 2 * P + 1})
+            for n in lens:
+                for z in sorted({0, 1, 2, P - 1, P, P + 1, 2 * P, n - 1, n}):
+                    if not 0 <= z <= n:
+                        continue
+                    bits = [0] * z + [1] * (n - z)
+                    rng.shuffle(bits)
+                    for op, arg, e in (('all', bits, int(z == 0)), ('any', bits, int(n - z > 0)), ('any', [1 - b for b in bits], int(z > 0)), ('all', [1 - b for b in bits], int(z == n))):
+                        case = [l, 'long-' + op, n, z, arg[:3]]
+                        if not rec.wants(case):
+                            continue
+                        rec.count('exhaustive_cases')
+                        rec.count('long_list_reductions')
+                        with rec.guard(f'secint{l} {op} of {n} bits', case, {'mechanism': 'exception', 'op': op, 'divisor_negative': False}):
+                            got = int(mpc.run(mpc.output({'all': mpc.all, 'any': mpc.any}[op]([secint(b) for b in arg]))))
+                            if got != e:
+                                rec.violation(f'm=1 secint{l}: {op}() of a list of {n} bits with {arg.count(0)} zeros = {got}, Python gives {e}',
+                                              {'mechanism': 'wrong-output', 'op': op, 'divisor_negative': False}, {'case': case}, case=case)
+                        rec.case(case, nontrivial=n >= 3)
+                signs = [rng.choice([1, -1]) for _ in range(n)]
+                small = [rng.choice([0, 1, -1]) for _ in range(n)]
+                tot = sum(small)
+                for op, arg, e in (('prod', signs, math.prod(signs)), ('sum', small, tot), ('minl', small, min(small)), ('maxl', small, max(small))):
+                    if not -lim <= e < lim or (op in ('minl', 'maxl') and l < 2):
+                        continue
+                    case = [l, 'long-' + op, n, arg[:4]]
+                    if not rec.wants(case):
+                        continue
+                    rec.count('exhaustive_cases')
+                    rec.count('long_list_reductions')
+                    with rec.guard(f'secint{l} {op} of {n} values', case, {'mechanism': 'exception', 'op': op, 'divisor_negative': False}):
+                        fn = {'prod': mpc.prod, 'sum': mpc.sum, 'minl': mpc.min, 'maxl': mpc.max}[op]
+                        got = int(mpc.run(mpc.output(fn([secint(b) for b in arg]))))
+                        if got != e:
+                            rec.violation(f'm=1 secint{l}: {op} of a list of {n} values in {{-1,0,1}} = {got}, Python gives {e}',
+                                          {'mechanism': 'wrong-output', 'op': op, 'divisor_negative': False}, {'case': case}, case=case)
+                    rec.case(case, nontrivial=n >= 3)
         return
     m, t, no_prss = shard['cfg']
     for pi in range(shard['programs']):
